@@ -1,5 +1,6 @@
-(** Network area: witnesses (closed by [vm_compute]) for statements that are false of the
-    faithful model, and the decidable classes of the recorded findings. *)
+(** Network area: witnesses (closed by [vm_compute], real AES-CMAC) for statements that are
+    false of the faithful model, the decidable classes of the recorded findings, and
+    non-vacuity examples on concrete small topologies. *)
 From Sci Require Import Network.Model Network.Spec Network.Aes.
 Local Open Scope N_scope.
 
@@ -8,4 +9,96 @@ Local Open Scope N_scope.
 Lemma seg_change_peer_pairs_refuted :
   sdk_seg_change_ok ToChild ToPeer = true /\ spec_seg_change_ok ToChild ToPeer = false
   /\ sdk_seg_change_ok ToPeer ToChild = true /\ spec_seg_change_ok ToPeer ToChild = false.
+Proof. vm_compute. repeat split; reflexivity. Qed.
+
+(** ** a 5-AS peering topology: core 1; 2 and 3 its children; 4 child of 2; 5 child of 3;
+    2 and 3 peer.  Interfaces: 1#1-2#1, 1#2-3#1, 2#2-4#1, 3#2-5#1, 2#3~3#3. *)
+Definition kk (n : N) : cmac_key := cmac_prep (repeat n 16).
+Definition peer_topo : topology cmac_key :=
+  mkTopo [mkAs 1 true (kk 1); mkAs 2 false (kk 2); mkAs 3 false (kk 3); mkAs 4 false (kk 4); mkAs 5 false (kk 5)]
+         [mkLink 1 1 SParent 2 1 true; mkLink 1 2 SParent 3 1 true; mkLink 2 2 SParent 4 1 true;
+          mkLink 3 2 SParent 5 1 true; mkLink 2 3 SPeer 3 3 true].
+Definition seg_124 : segment :=
+  beacon hop_mac 4660 1000
+    [mkUEntry 1 (kk 1) (mkUHop 63 0 1) [];
+     mkUEntry 2 (kk 2) (mkUHop 63 1 2) [(3, 3, mkUHop 63 3 2)];
+     mkUEntry 4 (kk 4) (mkUHop 63 1 0) []].
+Definition seg_135 : segment :=
+  beacon hop_mac 22136 1000
+    [mkUEntry 1 (kk 1) (mkUHop 63 0 2) [];
+     mkUEntry 3 (kk 3) (mkUHop 63 1 2) [(2, 3, mkUHop 63 3 2)];
+     mkUEntry 5 (kk 5) (mkUHop 63 1 0) []].
+
+(** the peering path 4 -> 2 ~ 3 -> 5 as the combinator assembles it *)
+Definition peering_packet : option packet :=
+  assemble 5 [mkUse seg_124 1 (Some 0%nat) false; mkUse seg_135 1 (Some 0%nat) true].
+
+(** C13-peering-unsupported: the reference router delivers it at AS 5 over 4#1, 2#3, 3#2;
+    the SDK router rejects it at AS 2 with InvalidHopFieldMac (completeness of the SDK router
+    with respect to the reference router is refuted) *)
+Lemma sdk_rejects_peering_refuted :
+  match peering_packet with
+  | Some pk =>
+    uses_peering (k_path pk) = true
+    /\ (let '(tr, e, _) := ref_sim hop_mac 5 peer_topo 1100 4 0 pk in
+        (tr, e) = ([(4, 0, 1); (2, 2, 3); (3, 3, 2)], RDelivered 5))
+    /\ (let '(tr, e, _) := sdk_sim hop_mac 5 peer_topo 1100 4 0 pk in
+        (map (fun s => (s_ia s, s_act s)) tr, e) = ([(4, AFwd 1); (2, AScmp 151 0)], EndVerdict))
+  | None => False
+  end.
+Proof. vm_compute. repeat split; reflexivity. Qed.
+
+(** the up-then-core-side path 4 -> 2 -> 1 -> 3 -> 5 (two segments, crossover at the core):
+    both routers deliver, and so does the reply over the reversed arrived path *)
+Definition via_core_packet : option packet :=
+  assemble 5 [mkUse seg_124 0 None false; mkUse seg_135 0 None true].
+Example via_core_delivered_and_back :
+  match via_core_packet with
+  | Some pk =>
+    let '(tr, e, pk') := ref_sim hop_mac 6 peer_topo 1100 4 0 pk in
+    let '(str, se, spk') := sdk_sim hop_mac 6 peer_topo 1100 4 0 pk in
+    e = RDelivered 5 /\ map (fun s => (s_ia s, s_act s)) str = [(4, AFwd 1); (2, AFwd 1); (1, AFwd 2); (3, AFwd 2); (5, ALocal)]
+    /\ spk' = pk'
+    /\ (let '(_, e2, _) := ref_sim hop_mac 6 peer_topo 1100 5 0 (mkPkt 4 (path_reverse (k_path pk'))) in
+        e2 = RDelivered 4)
+  | None => False
+  end.
+Proof. vm_compute. repeat split; reflexivity. Qed.
+
+(** ** a 4-AS shortcut topology: core 1; 2 its child; 3 and 4 children of 2.
+    The shortcut path 3 -> 2 -> 4 (crossover at the non-core AS 2, whose two hop fields still
+    name the parent interface) is delivered by both routers -- the SDK router rejected it
+    before the repair recorded in known_findings/C13.json. *)
+Definition sc_topo : topology cmac_key :=
+  mkTopo [mkAs 1 true (kk 1); mkAs 2 false (kk 2); mkAs 3 false (kk 3); mkAs 4 false (kk 4)]
+         [mkLink 1 1 SParent 2 1 true; mkLink 2 2 SParent 3 1 true; mkLink 2 3 SParent 4 1 true].
+Definition seg_123 : segment :=
+  beacon hop_mac 4660 1000
+    [mkUEntry 1 (kk 1) (mkUHop 63 0 1) []; mkUEntry 2 (kk 2) (mkUHop 63 1 2) []; mkUEntry 3 (kk 3) (mkUHop 63 1 0) []].
+Definition seg_124' : segment :=
+  beacon hop_mac 22136 1000
+    [mkUEntry 1 (kk 1) (mkUHop 63 0 1) []; mkUEntry 2 (kk 2) (mkUHop 63 1 3) []; mkUEntry 4 (kk 4) (mkUHop 63 1 0) []].
+Definition shortcut_packet : option packet :=
+  assemble 4 [mkUse seg_123 1 None false; mkUse seg_124' 1 None true].
+Example shortcut_delivered :
+  match shortcut_packet with
+  | Some pk =>
+    uses_shortcut (k_path pk) = true
+    /\ (let '(tr, e, _) := ref_sim hop_mac 5 sc_topo 1100 3 0 pk in (tr, e) = ([(3, 0, 1); (2, 2, 3)], RDelivered 4))
+    /\ (let '(tr, e, _) := sdk_sim hop_mac 5 sc_topo 1100 3 0 pk in
+        map (fun s => (s_ia s, s_act s)) tr = [(3, AFwd 1); (2, AFwd 3); (4, ALocal)])
+  | None => False
+  end.
+Proof. vm_compute. repeat split; reflexivity. Qed.
+
+(** the over-acceptance closed by the same repair: the offered path injected at its source AS
+    through an external interface is refused by both routers *)
+Example external_injection_refused :
+  match shortcut_packet with
+  | Some pk =>
+    (let '(tr, e, _) := ref_sim hop_mac 5 sc_topo 1100 3 1 pk in e = RRejected 3 2)
+    /\ (let '(tr, e, _) := sdk_sim hop_mac 5 sc_topo 1100 3 1 pk in
+        map (fun s => (s_ia s, s_act s)) tr = [(3, AScmp 150 0)])
+  | None => False
+  end.
 Proof. vm_compute. repeat split; reflexivity. Qed.
